@@ -45,3 +45,25 @@ Example C20_create_rejected :
      = (s, fail cInvalidArgument)
   /\ br_code (snd (step s (mkCall (BCreateTable AdminProofs.ex_parent AdminProofs.ex_tid2 []) 0%Z []))) = cOK.
 Proof. exact AdminProofs.ex_create_rejected. Qed.
+
+(* GCS-18 repaired: a request that would give a new object a name that is not valid UTF-8 (media
+   upload, compose destination, copy destination) is answered 400 and changes nothing, whatever
+   the state; requests whose new name is valid, or that name no new object, pass the check unchanged *)
+From Emu.Common Require Import Utf8.
+From Emu.GCS Require Import Wire WireProofs.
+Theorem C20_invalid_name_refused : forall s r,
+  names_valid r = false -> handle s (sanitize r) = (s, err 400).
+Proof. exact sanitize_invalid_refused. Qed.
+Print Assumptions C20_invalid_name_refused.
+
+Theorem C20_valid_name_passes : forall r, names_valid r = true -> sanitize r = r.
+Proof. exact sanitize_valid. Qed.
+Print Assumptions C20_valid_name_passes.
+
+Theorem C20_ascii_is_valid : forall s, ascii s -> utf8_valid s = true.
+Proof. exact ascii_valid. Qed.
+Print Assumptions C20_ascii_is_valid.
+
+Example C20_invalid_upload_refused :
+  run_wire init_state [RUploadMedia [98]%N bad_name_witness [] [120]%N no_cparams] = (init_state, [err 400]).
+Proof. exact wire_invalid_upload_refused. Qed.
